@@ -1,0 +1,139 @@
+//go:build verif
+
+package ring
+
+// Contracts for ring_buffer.go, read by the rcvc verifier in /verif (comment-only; adds no code).
+// Abstract view: the byte sequence of length blen(rb) whose k-th byte is at(rb, k).
+
+//@ use ring
+
+//@ define wf(rb) = rb.size == len(rb.buf) && rb.size >= 0 && (rb.size == 0 ==> rb.r == 0 && rb.w == 0 && rb.isEmpty)
+//@     && (rb.size > 0 ==> 0 <= rb.r && rb.r < rb.size && 0 <= rb.w && rb.w < rb.size)
+//@     && (rb.isEmpty ==> rb.r == 0 && rb.w == 0)
+//@ define blen(rb) = rb_buffered(rb.size, rb.r, rb.w, rb.isEmpty)
+//@ define at(rb, k) = rb_at(rb.buf, rb.size, rb.r, k)
+
+//@ func Buffer.Buffered
+//@   props C19
+//@   flags pure
+//@   requires wf(rb)
+//@   ensures result == blen(rb) && 0 <= result && result <= rb.size
+
+//@ func Buffer.Available
+//@   props C19
+//@   flags pure
+//@   requires wf(rb)
+//@   ensures result == rb.size - blen(rb)
+
+//@ func Buffer.IsEmpty
+//@   props C19
+//@   flags pure
+//@   requires wf(rb)
+//@   ensures result == (blen(rb) == 0)
+
+//@ func Buffer.IsFull
+//@   props C19
+//@   flags pure
+//@   requires wf(rb)
+//@   ensures result == (rb.size > 0 && blen(rb) == rb.size)
+
+//@ func Buffer.Len
+//@   props C19
+//@   flags pure
+//@   requires wf(rb)
+//@   ensures result == rb.size
+
+//@ func Buffer.Cap
+//@   props C19
+//@   flags pure
+//@   ensures result == rb.size
+
+//@ func Buffer.Reset
+//@   props C19
+//@   modifies rb.r, rb.w, rb.isEmpty
+//@   requires wf(rb)
+//@   ensures wf(rb) && blen(rb) == 0
+
+//@ func Buffer.Peek
+//@   props C19
+//@   flags pure
+//@   requires wf(rb)
+//@   ensures[len] len(head) + len(tail) == ite(n <= 0, blen(rb), imin(n, blen(rb)))
+//@   ensures[head] forall k int :: 0 <= k && k < len(head) ==> head[k] == at(rb, k)
+//@   ensures[tail] forall k int :: 0 <= k && k < len(tail) ==> tail[k] == at(rb, len(head) + k)
+//@   ensures[split] len(tail) > 0 ==> len(head) == rb.size - rb.r
+
+//@ func Buffer.peekAll
+//@   props C19
+//@   flags pure
+//@   requires wf(rb)
+//@   ensures[len] len(head) + len(tail) == blen(rb)
+//@   ensures[head] forall k int :: 0 <= k && k < len(head) ==> head[k] == at(rb, k)
+//@   ensures[tail] forall k int :: 0 <= k && k < len(tail) ==> tail[k] == at(rb, len(head) + k)
+//@   ensures[split] len(tail) > 0 ==> len(head) == rb.size - rb.r
+
+//@ func Buffer.Discard
+//@   props C19
+//@   modifies rb.r, rb.w, rb.isEmpty
+//@   requires wf(rb)
+//@   ensures[wf] wf(rb)
+//@   ensures[count] discarded == imin(imax(n, 0), old(blen(rb))) && err == nil
+//@   ensures[len] blen(rb) == old(blen(rb)) - discarded
+//@   ensures[view] forall k int :: 0 <= k && k < blen(rb) ==> at(rb, k) == old(at(rb, k + imin(imax(n, 0), blen(rb))))
+
+//@ func Buffer.Read
+//@   props C19
+//@   modifies rb.r, rb.w, rb.isEmpty, elems(p)
+//@   requires wf(rb) && p.base != rb.buf.base
+//@   ensures[wf] wf(rb)
+//@   ensures[count] n == imin(len(p), old(blen(rb)))
+//@   ensures[err] (len(p) > 0 && old(blen(rb)) == 0) ==> err == ErrIsEmpty
+//@   ensures[err2] (len(p) == 0 || old(blen(rb)) > 0) ==> err == nil
+//@   ensures[len] blen(rb) == old(blen(rb)) - n
+//@   ensures[data] forall k int :: 0 <= k && k < n ==> p[k] == old(at(rb, k))
+//@   ensures[view] forall k int :: 0 <= k && k < blen(rb) ==> at(rb, k) == old(at(rb, k + imin(len(p), blen(rb))))
+
+//@ func Buffer.ReadByte
+//@   props C19
+//@   modifies rb.r, rb.w, rb.isEmpty
+//@   requires wf(rb)
+//@   ensures[wf] wf(rb)
+//@   ensures[empty] old(blen(rb)) == 0 ==> err == ErrIsEmpty && blen(rb) == 0
+//@   ensures[data] old(blen(rb)) > 0 ==> err == nil && b == old(at(rb, 0)) && blen(rb) == old(blen(rb)) - 1
+//@   ensures[view] forall k int :: 0 <= k && k < blen(rb) ==> at(rb, k) == old(at(rb, k + 1))
+
+//@ func Buffer.grow
+//@   props C19
+//@   modifies rb.buf, rb.size, rb.r, rb.w, rb.isEmpty
+//@   requires wf(rb) && newCap > rb.size
+//@   ensures[wf] wf(rb)
+//@   ensures[cap] rb.size >= newCap && rb.size >= old(rb.size)
+//@   ensures[dbl] (old(rb.size) > 0 && old(rb.size) < 4096 && newCap <= 2 * old(rb.size)) ==> rb.size == 2 * old(rb.size)
+//@   ensures[fresh] fresh(rb.buf)
+//@   ensures[len] blen(rb) == old(blen(rb))
+//@   ensures[view] forall k int :: 0 <= k && k < blen(rb) ==> at(rb, k) == old(at(rb, k))
+//@   ensures[room] rb.r == 0 && rb.w == blen(rb)
+//@   loop 0
+//@     invariant n >= rb.size && rb.size >= 4096 && rb.size == old(rb.size) && wf(rb) && doubleCap == 2 * rb.size
+//@     invariant rb.buf == old(rb.buf) && rb.r == old(rb.r) && rb.w == old(rb.w) && rb.isEmpty == old(rb.isEmpty)
+//@     decreases newCap - n
+
+//@ func Buffer.Write
+//@   props C19
+//@   modifies rb.buf, rb.size, rb.r, rb.w, rb.isEmpty, mem(rb.buf)
+//@   requires wf(rb) && p.base != rb.buf.base
+//@   ensures[wf] wf(rb)
+//@   ensures[count] n == len(p) && err == nil
+//@   ensures[len] blen(rb) == old(blen(rb)) + len(p)
+//@   ensures[keep] forall k int :: 0 <= k && k < old(blen(rb)) ==> at(rb, k) == old(at(rb, k))
+//@   ensures[data] forall k int :: 0 <= k && k < len(p) ==> at(rb, old(blen(rb)) + k) == old(p[k])
+//@   ensures[src] unchanged(p)
+
+//@ func Buffer.WriteByte
+//@   props C19
+//@   modifies rb.buf, rb.size, rb.r, rb.w, rb.isEmpty, mem(rb.buf)
+//@   requires wf(rb)
+//@   ensures[wf] wf(rb)
+//@   ensures[len] blen(rb) == old(blen(rb)) + 1
+//@   ensures[keep] forall k int :: 0 <= k && k < old(blen(rb)) ==> at(rb, k) == old(at(rb, k))
+//@   ensures[data] at(rb, old(blen(rb))) == c
